@@ -70,9 +70,22 @@ def with_empty_arrays(doc):
     return go(doc)
 
 
+def without_prefix_items(doc):
+    """the same schema with every prefixItems list cut off (arrays shorter than their prefix are instances too)"""
+    def go(s):
+        if isinstance(s, dict):
+            return {k: ([go(x) for x in v] if isinstance(v, list) else go(v)) if k not in ("enum", "const", "required") else v
+                    for k, v in s.items() if k != "prefixItems"}
+        return s
+    return go(doc)
+
+
 def json_generate(doc):
+    """None / error string; divergence while the graph is being built is reported as 'build-fuel'"""
     g, pairs, err = c01.generate(doc)
     if g is None:
+        if err == "fuel":
+            return "build-fuel"
         return "lib" if err and err.startswith("lib:") else err
     return err
 
@@ -84,6 +97,9 @@ def oracle_json(doc):
         return []
     err, terr = timed(lambda: json_generate(doc))
     err = terr or err
+    if err == "build-fuel":
+        return [("json-recursion-does-not-terminate:while-building-the-graph",
+                 "parse_json_schema raises RecursionError on a recursive schema that admits a finite instance")]
     if err in ("fuel", "timeout"):
         # classification for the known-findings file: does the recursion only fail to bottom out because
         # arrays are generated with one item by default?
@@ -92,6 +108,10 @@ def oracle_json(doc):
         sig = "json-recursion-does-not-terminate"
         if e2 not in ("fuel", "timeout"):
             sig += ":recursion-through-array-items-generated-non-empty"
+        else:
+            e3, t3 = timed(lambda: json_generate(with_empty_arrays(without_prefix_items(doc))))
+            if (t3 or e3) not in ("fuel", "timeout"):
+                sig += ":recursion-through-prefix-items-generated-in-full"
         return [(sig, "generation %s on a recursive schema that admits a finite instance" % ("exceeds 10 s" if err == "timeout" else "raises RecursionError"))]
     return []
 
@@ -101,7 +121,7 @@ def gen_recursive_doc(rng):
     has a base alternative or sits under an array that may be empty"""
     leaf = lambda: rng.choice([{"type": "integer", "minimum": rng.randint(0, 3)}, {"type": "string"}, {"enum": ["a", "b"]}, {"type": "boolean"}, {}])
     tgt = rng.choice(["#", "#/$defs/T", "#/$defs/U"])
-    shape = rng.choice(["optprop", "items", "items0", "prefix", "anyof-base", "mutual", "nested-array", "ref-siblings"])
+    shape = rng.choice(["optprop", "items", "items0", "prefix", "anyof-base", "mutual", "nested-array", "ref-siblings", "cons", "cons0"])
     T = {"type": "object", "properties": {"v": leaf()}}
     U = {"type": "array", "items": leaf()}
     if shape == "optprop":
@@ -116,6 +136,10 @@ def gen_recursive_doc(rng):
         T["properties"]["pair"] = {"type": "array", "prefixItems": [leaf(), {"$ref": tgt}], "minItems": 0}
     elif shape == "anyof-base":
         T = {"anyOf": [{"type": "null"}, {"type": "object", "properties": {"next": {"$ref": tgt}}, "required": ["next"]}]}
+    elif shape == "cons":
+        T = {"anyOf": [{"type": "null"}, {"type": "array", "prefixItems": [leaf(), {"$ref": "#/$defs/T"}]}]}
+    elif shape == "cons0":
+        T = {"type": "array", "prefixItems": [leaf(), {"$ref": "#/$defs/T"}], "minItems": 0}
     elif shape == "mutual":
         T["properties"]["u"] = {"$ref": "#/$defs/U"}
         U = {"type": "object", "properties": {"t": {"$ref": "#/$defs/T"}, "w": leaf()}}
@@ -131,6 +155,48 @@ def gen_recursive_doc(rng):
     return doc
 
 
+WG_FUEL = 1500
+
+
+def wg_case(root):
+    """(driver line, what the implementation yields) for a graph built by a front end"""
+    import regexes as RX
+    line = RX.certify_line(root)
+    toks = line.split(" ")
+    its = list(root.items())
+    num = {id(n): i for i, n in enumerate(its)}
+    entries, status = [], "ok:"
+    try:
+        for e in root.generate_paths():
+            entries.append(e)
+    except Exception as ex:  # noqa
+        status = graphs.err_str(ex)
+    impl = "entries=" + ";".join("%d/%s/%d" % (num.get(id(e.target), -1), graphs.ints(e.path), int(e.is_valid)) for e in entries) + "|status=" + status
+    return " ".join(["WG", str(WG_FUEL)] + toks[1:]), impl
+
+
+def judge_wg(ck, stats, what, payload, m, impl):
+    """certificate + correspondence for one front-end graph"""
+    parts = dict(p.split("=", 1) for p in m.split("|") if "=" in p)
+    cert = parts.get("wf") == "1" and (parts.get("prod") == "1" or parts.get("acyc") == "1")
+    stats["front_end_graphs"] += 1
+    stats["theorem_applies"] += cert
+    model = "entries=%s|status=%s" % (parts.get("entries", ""), parts.get("status", ""))
+    if m.startswith("error="):
+        stats["model_gave_up"] = stats.get("model_gave_up", 0) + 1
+        return
+    if cert and parts.get("status") != "ok:":
+        ck.violation("theorem-contradicted", "the model does not end normally on a certified graph (%s): C11_core would be contradicted" % what,
+                     dict(payload, model=m[:300], theorem="C11_core_productive / C11_core_acyclic"), found_input=False)
+    if cert and "status=ok:" not in impl:
+        ck.violation("front-end-graph-enumeration-fails", "generate_paths() ends with %s on the graph of %s, which is well-formed and %s: the theorem C11_core says the enumeration ends normally" % (
+            impl.split("status=")[-1], what, "productive" if parts.get("prod") == "1" else "acyclic"), payload)
+    elif model != impl and not (("status=fuel" in impl or "status=timeout" in impl) and parts.get("status") == "fuel"):
+        ck.cov["disagreements_checked"] += 1
+        ck.violation("correspondence-WG", "model (coq/Graph.v) and core/node.py enumerate different paths on the graph of %s" % what,
+                     dict(payload, impl=impl[:400], model=model[:400], theorem="correspondence stream WG"), found_input=False)
+
+
 def run(pid, tier):
     ck = Check(pid, tier)
     if not ck.coq():
@@ -142,6 +208,9 @@ def run(pid, tier):
     # (b) grammars
     n = 200 if tier == "quick" else 3000
     gr = {"grammars_in_scope": 0, "recursive": 0}
+    wg = []
+    wg_budget = 80 if tier == "quick" else 1500
+    wstats = {"front_end_graphs": 0, "theorem_applies": 0}
 
     def grammars():
         for _ in range(n):
@@ -152,6 +221,13 @@ def run(pid, tier):
                 continue
             gr["grammars_in_scope"] += 1
             gr["recursive"] += '"N"' in txt
+            if gr["grammars_in_scope"] <= wg_budget:
+                try:
+                    from fences import parse_grammar
+                    groot = parse_grammar(GM.to_fences(g), "n%d" % start)
+                    wg.append(("grammar %s" % json.dumps(g)[:120], {"stream": "WG", "grammar": g, "start": start}) + wg_case(groot))
+                except Exception:  # noqa
+                    pass
             obs, pairs = GM.observe(g, start)
             if obs.startswith("parse=fuel") or "status=fuel" in obs or any(s is None for _, s in pairs):
                 small = c08.shrink(g, start, lambda c: c08.in_scope(c, start) and ("fuel" in GM.observe(c, start)[0]))
@@ -168,27 +244,78 @@ def run(pid, tier):
             continue
         ck.count("js" + json.dumps(d), True)
         js["json_in_scope"] += 1
+        if js["json_in_scope"] <= wg_budget and c06.guarded(d) and finite_instance(d):
+            gq, terr = timed(lambda: c01.P.parse(copy.deepcopy(d)))
+            if gq is not None:
+                case, terr = timed(lambda: wg_case(gq))
+                if case is not None:
+                    wg.append(("schema %s" % json.dumps(d)[:120], {"stream": "WG", "schema": d}) + case)
         for sig, what in oracle_json(d):
             small = d
             if len([v for v in ck.violations]) < 2:
                 small = c06.shrink_doc(d, lambda c: any(s == sig for s, _ in oracle_json(c)))
             ck.violation(sig, what, {"stream": "J", "schema": small})
+    # (d) XML Schemas: named complex types that contain themselves below an optional element
+    import xsds as X
+    import xml.etree.ElementTree as ET
+    xs = {"xsd_recursive": 0}
+    for i in range(60 if tier == "quick" else 1500):
+        sch = X.gen_schema(rng, recursive_ok=True)
+        text = X.to_xsd(sch)
+        if 'name="rec' not in text:
+            continue
+        ck.count("xs" + text, True)
+        xs["xsd_recursive"] += 1
+
+        def build(text=text):
+            from fences import parse_xml_schema
+            return parse_xml_schema(ET.fromstring(text))
+        groot, err = timed(build)
+        if err in ("fuel", "timeout"):
+            ck.violation("xsd-recursion-does-not-terminate:while-building-the-graph", "parse_xml_schema %s on a schema whose recursive element is optional" % (
+                "exceeds 10 s" if err == "timeout" else "raises RecursionError"), {"stream": "X", "xsd": text})
+            continue
+        if groot is None:
+            continue
+        case, err = timed(lambda: wg_case(groot))
+        if case is None:
+            continue
+        if "status=fuel" in case[1]:
+            ck.violation("xsd-recursion-does-not-terminate", "generate_paths() raises RecursionError on the graph of an XML Schema whose recursive element is optional",
+                         {"stream": "X", "xsd": text})
+        wg.append(("XML schema %s" % text[:120], {"stream": "WG", "xsd": text}) + case)
+    stats.update(xs)
+    for (what, payload, line, impl), m in zip(wg, run_driver([w[2] for w in wg]) if wg else []):
+        judge_wg(ck, wstats, what, payload, m, impl)
     stats.update(gr)
     stats.update(js)
+    stats.update(wstats)
     ck.notes["input_distribution"] = stats
     ck.cov["rule"] += "; plus random recursive grammars (stream Gr) and random JSON Schemas with guarded recursive $ref that accept some finite instance"
-    return ck.finish(level="other", trusted=["models: coq/Graph.v (core), coq/Grammar.v, coq/JsonGen.v; termination of the implementation is observed by RecursionError / a 10 s alarm"],
-                     explanation="termination is observed on the implementation (RecursionError <-> OutOfFuel in the model correspondence of stream G, alarm clock for front ends); "
-                                 "Coq: loop-round bound proved, the fuel-bound theorem for analysis and path walking is in progress")
+    return ck.finish(level="proof", trusted=["models: coq/Graph.v (core), coq/Grammar.v, coq/JsonGen.v; termination of the implementation is observed by RecursionError / a 10 s alarm",
+                                             "front-end graphs: node table dumped from the implementation, certified by wfb / productiveb / acyclicb of the extracted model (C11_checkers)"],
+                     explanation="theorems C11_core_productive / C11_core_acyclic / C11_paths_execute (coq/Properties/C11.v) for the core; stream G ties the model to core/node.py "
+                                 "(RecursionError <-> OutOfFuel); front-end graphs are certified one by one (stream WG) so that the theorem applies to them, and their enumeration is compared with the model's")
 
 
 def replay(pid, path):
     d = json.load(open(path))
     if "schema" in d:
         res = oracle_json(d["schema"])
+    elif "xsd" in d:
+        import xml.etree.ElementTree as ET
+
+        def go():
+            from fences import parse_xml_schema
+            return wg_case(parse_xml_schema(ET.fromstring(d["xsd"])))
+        case, err = timed(go)
+        res = [("xsd-recursion-does-not-terminate", "RecursionError / alarm on the XML schema")] if err in ("fuel", "timeout") or (case and "status=ok:" not in case[1]) else []
     elif "grammar" in d:
-        print("re-run ./check C08 --replay for grammar inputs")
-        res = []
+        def go():
+            from fences import parse_grammar
+            return wg_case(parse_grammar(GM.to_fences(d["grammar"]), "n%d" % d["start"]))
+        case, err = fences_env.run_with_big_stack(lambda: timed(go), reclimit=3000)
+        res = [("grammar-does-not-terminate", "RecursionError / alarm on the grammar")] if err in ("fuel", "timeout") or (case and "status=ok:" not in case[1]) else []
     else:
         return core.replay("C11", path)
     for sig, what in res:
